@@ -151,7 +151,7 @@ Fixpoint create_term (fuel : nat) (lc : list (bytes * json)) (a : actx) (dn : li
                                    match split_colon term with
                                    | Some _ =>
                                        (* 14.2.4: a term which looks like a compact IRI must expand to its own mapping *)
-                                       match ex a (term :: dn) term true false with
+                                       match ex a (term :: dn) term false false with
                                        | Some (Some r', _, _) => if beq r r' then Some (r, false, a, dn) else None
                                        | _ => None
                                        end
@@ -389,17 +389,18 @@ Definition value_object (a : actx) (ek : list (option bytes * bytes * json)) : o
     | None, Some _ => None
     end.
 
-(* value f: the objects a value denotes under term definition td, the quads of embedded nodes, the counter *)
-Fixpoint value (fuel : nat) (a : actx) (g : option jterm) (td : option termdef) (v : json) (k : nat)
+Definition valuefn := actx -> option jterm -> option termdef -> json -> nat -> option (list jterm * list jquad * nat).
+Definition nodefn := actx -> option jterm -> list (option bytes * bytes * json) -> nat -> option (jterm * list jquad * nat).
+
+(* one level of a value: the objects it denotes under term definition td, the quads of embedded nodes, the counter;
+   valuef and nodef evaluate the values and node objects below it *)
+Definition value_step (valuef : valuefn) (nodef : nodefn) (a : actx) (g : option jterm) (td : option termdef) (v : json) (k : nat)
   : option (list jterm * list jquad * nat) :=
-  match fuel with
-  | O => None
-  | S f =>
       let values (a : actx) (td : option termdef) (l : list json) (k : nat) :=
         fold_left (fun st v => match st with
                                | None => None
                                | Some (os, qs, k) =>
-                                   match value f a g td v k with
+                                   match valuef a g td v k with
                                    | Some (os', qs', k') => Some (os ++ os', qs ++ qs', k')
                                    | None => None
                                    end
@@ -446,20 +447,18 @@ Fixpoint value (fuel : nat) (a : actx) (g : option jterm) (td : option termdef) 
                          | None => None
                          end
                   else
-                    match node f a' g ek k with
+                    match nodef a' g ek k with
                     | Some (s, qs, k') => Some ([s], qs, k')
                     | None => None
                     end
               end
           end
       end
-  end
-(* node f: a node object given by its expanded entries, in graph g: subject, quads, counter *)
-with node (fuel : nat) (a : actx) (g : option jterm) (ek : list (option bytes * bytes * json)) (k : nat)
+.
+
+(* one level of a node object given by its expanded entries, in graph g: subject, quads, counter *)
+Definition node_step (valuef : valuefn) (a : actx) (g : option jterm) (ek : list (option bytes * bytes * json)) (k : nat)
   : option (jterm * list jquad * nat) :=
-  match fuel with
-  | O => None
-  | S f =>
       if Nat.ltb 1 (ek_count "@id" ek) || Nat.ltb 1 (ek_count "@graph" ek) then None else
       match (match ek_lookup "@id" ek with
              | None => Some (TB true (gen_label k), S k)
@@ -500,7 +499,7 @@ with node (fuel : nat) (a : actx) (g : option jterm) (ek : list (option bytes * 
                           fold_left (fun st v =>
                             match st, v with
                             | Some (s, qs, k), JObj _ =>
-                                match value f a (Some s) None v k with
+                                match valuef a (Some s) None v k with
                                 | Some (_, qs', k') => Some (s, qs ++ qs', k')
                                 | None => None
                                 end
@@ -515,15 +514,29 @@ with node (fuel : nat) (a : actx) (g : option jterm) (ek : list (option bytes * 
                       let is_list_obj := match v with JObj _ => false | _ => true end in
                       match (match td with
                              | Some (TD _ _ _ true _) =>
-                                 if is_list_obj then value f a g td (JObj [(s2b "@list", JArr (as_list v))]) k else None
-                             | _ => value f a g td v k
+                                 if is_list_obj then valuef a g td (JObj [(s2b "@list", JArr (as_list v))]) k else None
+                             | _ => valuef a g td v k
                              end) with
                       | Some (os, qs', k') => Some (s, qs ++ qs' ++ map (fun o => (s, r, o, g)) os, k')
                       | None => None
                       end
                 end
             end) ek (Some (s, [], k1))
-      end
+      end.
+
+(* the recursive calls are wrapped in closures so that eager evaluation (vm_compute, OCaml) descends only where
+   the document does *)
+Fixpoint value (fuel : nat) (a : actx) (g : option jterm) (td : option termdef) (v : json) (k : nat) {struct fuel}
+  : option (list jterm * list jquad * nat) :=
+  match fuel with
+  | O => None
+  | S f => value_step (fun a g td v k => value f a g td v k) (fun a g ek k => node f a g ek k) a g td v k
+  end
+with node (fuel : nat) (a : actx) (g : option jterm) (ek : list (option bytes * bytes * json)) (k : nat) {struct fuel}
+  : option (jterm * list jquad * nat) :=
+  match fuel with
+  | O => None
+  | S f => node_step (fun a g td v k => value f a g td v k) a g ek k
   end.
 
 End Eval.
